@@ -44,6 +44,9 @@ type InSpec struct {
 	Sep  string
 	// Unconnected: port is declared but deliberately left without upstream (C16)
 	Unconnected bool
+	// Disconnected (with Unconnected): the port is first connected to its first
+	// upstream and then disconnected again with InPort.Disconnect
+	Disconnected bool
 }
 
 type ParamSpec struct {
